@@ -123,55 +123,182 @@ func gen(c *ex.Ctx) {
 		})
 		return out
 	}
-	for _, r := range raws {
+	for round := 0; round < 8; round++ {
+		changed := false
+		for _, r := range raws {
+			if locks[r.name] {
+				continue
+			}
+			for _, cn := range callsOf(r.body) {
+				if locks[cn] && cn != r.name {
+					locks[r.name] = true
+					changed = true
+					break
+				}
+			}
+		}
+		if !changed {
+			break
+		}
+	}
+	// Events of one body, with the block structure spelled out (round 3): "{" / "}" around every branch
+	// (if / else, loop bodies, switch / select clauses) so that a `return` inside a branch ends that
+	// branch only; callees qualified by the receiver's type where the receiver expression tells it
+	// ("C:Parser.Close" for vx.parser.Close(), "C:Vaxis.Suspend" for vx.Suspend()); calls on receivers
+	// of other packages (vx.console.Close(), log.Debug, signal.Stop, …) are not calls into these files.
+	ownerOf := func(x string) (string, bool) {
+		parts := strings.Split(x, ".")
+		switch parts[len(parts)-1] {
+		case "vx", "Vx":
+			return "Vaxis", true
+		case "tw", "w":
+			return "writer", true
+		case "parser", "p":
+			return "Parser", true
+		case "m":
+			return "Model", true
+		case "win":
+			return "Window", true
+		}
+		return "", false
+	}
+	events := func(body *ast.BlockStmt, recv string, self string) []string {
 		var evs []string
-		var walk func(n ast.Node, deferred bool)
-		walk = func(n ast.Node, deferred bool) {
+		var walkStmt func(st ast.Stmt)
+		walkExpr := func(n ast.Node) {
+			if n == nil {
+				return
+			}
 			ast.Inspect(n, func(m ast.Node) bool {
 				switch x := m.(type) {
 				case *ast.FuncLit:
-					// goroutine bodies / callbacks run elsewhere: separate pseudo-function
-					return false
-				case *ast.ReturnStmt:
-					evs = append(evs, "R")
-					return true
-				case *ast.DeferStmt:
-					if op, mx, ok := isLockCall(x.Call); ok && op == "Unlock" {
-						evs = append(evs, "D:"+mutexName(c, r.recv, mx))
-						return false
-					}
-					return true
+					return false // runs elsewhere / later: separate pseudo-function
 				case *ast.CallExpr:
 					if op, mx, ok := isLockCall(x); ok {
 						k := "L:"
 						if op == "Unlock" {
 							k = "U:"
 						}
-						evs = append(evs, k+mutexName(c, r.recv, mx))
+						evs = append(evs, k+mutexName(c, recv, mx))
 						return false
 					}
-					name := ""
 					switch f := x.Fun.(type) {
 					case *ast.SelectorExpr:
-						name = f.Sel.Name
+						name := f.Sel.Name
+						if locks[name] && name != self {
+							if o, ok := ownerOf(c.Src(f.X)); ok {
+								evs = append(evs, "C:"+o+"."+name)
+							}
+						}
 					case *ast.Ident:
-						name = f.Name
-					}
-					if locks[name] && name != r.name {
-						evs = append(evs, "C:"+name)
+						if locks[f.Name] && f.Name != self {
+							evs = append(evs, "C:"+f.Name)
+						}
 					}
 				}
 				return true
 			})
 		}
-		walk(r.body, false)
-		hasLock := false
-		for _, e := range evs {
-			if e[0] == 'L' {
-				hasLock = true
+		block := func(f func()) {
+			evs = append(evs, "{")
+			f()
+			evs = append(evs, "}")
+		}
+		walkList := func(l []ast.Stmt) {
+			for _, st := range l {
+				walkStmt(st)
 			}
 		}
-		if hasLock {
+		walkStmt = func(st ast.Stmt) {
+			switch x := st.(type) {
+			case nil:
+			case *ast.BlockStmt:
+				walkList(x.List)
+			case *ast.IfStmt:
+				walkStmt(x.Init)
+				walkExpr(x.Cond)
+				block(func() { walkList(x.Body.List) })
+				if x.Else != nil {
+					block(func() { walkStmt(x.Else) })
+				}
+			case *ast.ForStmt:
+				walkStmt(x.Init)
+				walkExpr(x.Cond)
+				block(func() { walkList(x.Body.List); walkStmt(x.Post) })
+			case *ast.RangeStmt:
+				walkExpr(x.X)
+				block(func() { walkList(x.Body.List) })
+			case *ast.SwitchStmt:
+				walkStmt(x.Init)
+				walkExpr(x.Tag)
+				for _, cl := range x.Body.List {
+					cc := cl.(*ast.CaseClause)
+					block(func() {
+						for _, e := range cc.List {
+							walkExpr(e)
+						}
+						walkList(cc.Body)
+					})
+				}
+			case *ast.TypeSwitchStmt:
+				walkStmt(x.Init)
+				walkStmt(x.Assign)
+				for _, cl := range x.Body.List {
+					cc := cl.(*ast.CaseClause)
+					block(func() { walkList(cc.Body) })
+				}
+			case *ast.SelectStmt:
+				for _, cl := range x.Body.List {
+					cc := cl.(*ast.CommClause)
+					block(func() { walkStmt(cc.Comm); walkList(cc.Body) })
+				}
+			case *ast.LabeledStmt:
+				walkStmt(x.Stmt)
+			case *ast.ReturnStmt:
+				for _, e := range x.Results {
+					walkExpr(e)
+				}
+				evs = append(evs, "R")
+			case *ast.DeferStmt:
+				if op, mx, ok := isLockCall(x.Call); ok && op == "Unlock" {
+					evs = append(evs, "D:"+mutexName(c, recv, mx))
+					return
+				}
+				walkExpr(x.Call)
+			case *ast.GoStmt:
+				// the callee runs on another goroutine: not nested in what this one holds
+			default:
+				walkExpr(st)
+			}
+		}
+		walkList(body.List)
+		// blocks without events say nothing
+		for changed := true; changed; {
+			changed = false
+			var out []string
+			for i := 0; i < len(evs); i++ {
+				if evs[i] == "{" && i+1 < len(evs) && evs[i+1] == "}" {
+					i++
+					changed = true
+					continue
+				}
+				out = append(out, evs[i])
+			}
+			evs = out
+		}
+		return evs
+	}
+	relevant := func(evs []string) bool {
+		for _, e := range evs {
+			if e[0] == 'L' || e[0] == 'C' {
+				return true
+			}
+		}
+		return false
+	}
+	for _, r := range raws {
+		evs := events(r.body, r.recv, r.name)
+		if relevant(evs) {
 			nm := r.name
 			if r.recv != "" {
 				nm = r.recv + "." + nm
@@ -186,43 +313,8 @@ func gen(c *ex.Ctx) {
 				return true
 			}
 			idx++
-			var sub []string
-			ast.Inspect(fl.Body, func(k ast.Node) bool {
-				switch x := k.(type) {
-				case *ast.DeferStmt:
-					if op, mx, ok := isLockCall(x.Call); ok && op == "Unlock" {
-						sub = append(sub, "D:"+mutexName(c, r.recv, mx))
-						return false
-					}
-				case *ast.CallExpr:
-					if op, mx, ok := isLockCall(x); ok {
-						kk := "L:"
-						if op == "Unlock" {
-							kk = "U:"
-						}
-						sub = append(sub, kk+mutexName(c, r.recv, mx))
-						return false
-					}
-					name := ""
-					switch f := x.Fun.(type) {
-					case *ast.SelectorExpr:
-						name = f.Sel.Name
-					case *ast.Ident:
-						name = f.Name
-					}
-					if locks[name] {
-						sub = append(sub, "C:"+name)
-					}
-				}
-				return true
-			})
-			has := false
-			for _, e := range sub {
-				if e[0] == 'L' {
-					has = true
-				}
-			}
-			if has {
+			sub := events(fl.Body, r.recv, "")
+			if relevant(sub) {
 				nm := r.name
 				if r.recv != "" {
 					nm = r.recv + "." + nm
@@ -231,7 +323,6 @@ func gen(c *ex.Ctx) {
 			}
 			return true
 		})
-		_ = callsOf
 	}
 	sort.SliceStable(fns, func(i, j int) bool { return fns[i].name < fns[j].name })
 	{
@@ -256,13 +347,16 @@ func gen(c *ex.Ctx) {
 		sort.Strings(ks)
 		var q []string
 		for _, k := range ks {
+			if m[k].l == 0 && m[k].u == 0 {
+				continue // a file whose listed functions only call locking functions
+			}
 			q = append(q, fmt.Sprintf("(%s, %d, %d)", ex.LeanStr(k), m[k].l, m[k].u))
 		}
 		lockSitesCountDef = "/-- Per file: the Lock and Unlock (incl. deferred) events that went into `lockSites`. -/\ndef lockSitesCount : List (String × Nat × Nat) := [" + strings.Join(q, ", ") + "]\n\n"
 	}
 	var sb strings.Builder
 	sb.WriteString("namespace VaxisModel.Gen.Conc\n\n")
-	sb.WriteString("/-- (function, lock events in source order): L lock, U unlock, D deferred unlock, C call of a locking function. -/\n")
+	sb.WriteString("/-- (function, lock events in source order): L lock, U unlock, D deferred unlock, C call of a function that locks (transitively; qualified by the receiver's type where known), R return, { } a branch (if / else / loop body / switch or select clause). -/\n")
 	sb.WriteString("def lockSites : List (String × List String) := [\n")
 	for i, f := range fns {
 		var q []string
